@@ -23,7 +23,7 @@ RULE = ("(data faults of the asset, position of the query instant relative to th
         "open boundary / intraday / close boundary / overnight / weekend / gap day / after last, API used, "
         "answer NaN or not)")
 
-DATA_FAULTS = ("shuffle_rows", "gap_days", "empty_cell", "late_start")
+DATA_FAULTS = ("shuffle_rows", "gap_days", "empty_cell", "late_start", "halt", "zero_bar")
 APIS = ("bid", "ask", "h_bid", "h_ask", "h_bidask", "h_mid")
 
 
@@ -206,7 +206,10 @@ def execute(plan, focus, trace=False):
         try:
             src, handler = load_source(market, cfg, d0, market2)
         except Exception as e:
-            ctx.violate("C06", "loading_valid_csv_raised", {"exc": repr(e)[:300]})
+            try:
+                ctx.violate("C06", "loading_valid_csv_raised", {"exc": repr(e)[:300]})
+            except StopRun:
+                pass
             return ctx
         from qstrader.data.daily_bar_csv import CSVDailyBarDataSource
         applied = market.get("applied", {})
